@@ -374,26 +374,35 @@ def useRootsOf (tab : Table) (regs : List Node) (per : List (Node × GClass × G
     ++ (regs.filter (isKind tab .proc)).filter (bigger per · .uses)
     ++ (regs.filter (isKind tab .block)).filter (bigger per · .uses)
 
+/-- Is the bound procedure `bp` of a registered type a root of the project-wide call graph?
+    `fb = false`, the code as it is: unless it has exactly one binding that is not itself a bound
+    procedure — a test that, unlike `is_simple_binding` of `get_call_nodes` (`isSimple`), does not ask
+    whether the procedure behind the binding is shown.  `fb = true`: the code with
+    fixes/C13-binding-to-hidden-root.diff (the same test as `isSimple`).  The harness decides at run
+    time which of the two the working tree is. -/
+def boundRoot (fb : Bool) (tab : Table) (bp : Node) : Bool :=
+  !((ent tab bp).bindings.length == 1 &&
+    (match (ent tab bp).bindings with
+     | b :: _ => !(ent tab b).isBound && (!fb || (ent tab bp).deferred || (ent tab b).visibleF)
+     | [] => false))
+
 /-- roots of the project-wide call graph (`callnodes`) -/
-def callRootsOf (tab : Table) (regs : List Node) (per : List (Node × GClass × GState)) : List Node :=
+def callRootsOf (fb : Bool) (tab : Table) (regs : List Node) (per : List (Node × GClass × GState)) : List Node :=
   let types := regs.filter (isKind tab .type)
   let procs := regs.filter (isKind tab .proc)
-  let boundP := types.flatMap fun t =>
-    (ent tab t).boundprocs.filter fun bp =>
-      !((ent tab bp).bindings.length == 1 &&
-        (match (ent tab bp).bindings with | b :: _ => !(ent tab b).isBound | [] => false))
+  let boundP := types.flatMap fun t => (ent tab t).boundprocs.filter (boundRoot fb tab)
   let internalP := procs.flatMap fun p => (ent tab p).internals.filter fun q => (ent tab q).visibleF
   dedup (procs ++ internalP ++ boundP) ++ (regs.filter (isKind tab .prog)).filter (bigger per · .calls)
 
 /-- `graph_all` -/
-def graphAll (fx : Bool) (tab : Table) (order : List Node) : AllGraphs :=
+def graphAll (fx fb : Bool) (tab : Table) (order : List Node) : AllGraphs :=
   let regs := registered tab order
   match create tab (createFuel tab + regs.length) regs {} with
   | none => { ok := false }
   | some nd1 =>
     let per := perEntityOf fx tab nd1 regs
     let useRoots := useRootsOf tab regs per
-    let callRoots := callRootsOf tab regs per
+    let callRoots := callRootsOf fb tab regs per
     match create tab (createFuel tab + callRoots.length) callRoots nd1 with
     | none => { ok := false }
     | some nd2 =>
